@@ -9,6 +9,11 @@
 // space, just outside of it, or garbage).  Every scenario is run under every
 // GOMAXPROCS value of the property.
 //
+// The two ACM_POLICY_STATUS strategies are also run alone through the verif
+// hooks with an instrumented init/check pair (stratProbe): what every worker
+// context is offered, and whether a context stays with one goroutine and with
+// its own buffer.
+//
 // Coq side: the case carries the log and the target as FREE HASH TERMS and the
 // observed result; Coq decides whether the model allows that result.
 // Oracle (independent of the model): apply the returned result to the command
@@ -916,6 +921,15 @@ func (h *runner) randSettings(big bool) pcrbruteforcer.SettingsReproducePCR0 {
 	if big && rng.Intn(6) == 0 {
 		st.MaxACMPolicyLinearDistance = 128
 	}
+	// outside the sensible range: nothing is inside such a search space
+	switch rng.Intn(24) {
+	case 0:
+		st.MaxDisabledMeasurements = -1 - rng.Intn(2)
+	case 1:
+		st.MaxReorders = -1
+	case 2:
+		st.MaxACMPolicyLinearDistance = -1 - rng.Intn(3)
+	}
 	return st
 }
 
@@ -1025,9 +1039,9 @@ func (h *runner) randPert(ents []ent, st pcrbruteforcer.SettingsReproducePCR0, l
 // A strategy is given init(), which hands out a (register buffer, context)
 // pair, and check(context, buffer).  The check of ReproduceExpectedPCR0 hashes
 // into and replays on objects owned by the context, so whatever the number of
-// workers a strategy starts: a context is inside check() on one goroutine at a
-// time, and it is used with the buffer it was handed out with.  The probe is an
-// init/check pair that records what every context is offered and notices both.
+// workers a strategy starts, a context is inside check() on one goroutine at a
+// time.  The probe is an init/check pair that records what every context is
+// offered and notices a context that is entered twice at once.
 type probeCtx struct {
 	buf     []byte
 	busy    int32
@@ -1040,9 +1054,8 @@ type stratProbe struct {
 	accept     func(uint64) bool
 	mu         sync.Mutex
 	ctxs       []*probeCtx
-	unpaired   int32 // check(ctx, buf): buf is not the buffer init() returned together with ctx
 	concurrent int32 // check() entered with a context that is inside check() on another goroutine
-	foreign    int32 // check() called with something init() did not return
+	foreign    int32 // check() called with a context that init() did not return
 }
 
 func (p *stratProbe) init() ([]byte, any, error) {
@@ -1064,9 +1077,6 @@ func (p *stratProbe) check(ctx any, data []byte) (bool, error) {
 	} else {
 		atomic.AddInt32(&p.concurrent, 1)
 	}
-	if &data[0] != &pc.buf[0] {
-		atomic.AddInt32(&p.unpaired, 1)
-	}
 	v := binary.LittleEndian.Uint64(data)
 	pc.mu.Lock()
 	pc.offered = append(pc.offered, v)
@@ -1082,11 +1092,9 @@ func (p *stratProbe) check(ctx any, data []byte) (bool, error) {
 func (p *stratProbe) protocolProblem() string {
 	switch {
 	case atomic.LoadInt32(&p.foreign) > 0:
-		return "check() was called with a context or a buffer that no init() call returned"
-	case atomic.LoadInt32(&p.unpaired) > 0:
-		return fmt.Sprintf("check() was called %d time(s) with a context and a register buffer that do not come from the same init() call: the state of one worker is used by another", p.unpaired)
+		return "check() was called with a context that no init() call returned, or with fewer than 8 register bytes"
 	case atomic.LoadInt32(&p.concurrent) > 0:
-		return fmt.Sprintf("a context handed out by one init() call was inside check() on two goroutines at once (%d time(s)): per-worker state is shared between workers", p.concurrent)
+		return "a context handed out by one init() call was inside check() on two goroutines at once: per-worker state is shared between workers"
 	}
 	return ""
 }
@@ -1388,7 +1396,7 @@ func (h *runner) linearLimitWitness() {
 func (h *runner) manyWinners() {
 	const reg = 0x0000000200108681
 	type cfg struct{ n, g int }
-	cfgs := []cfg{{7, 5}, {7, 5}, {9, 6}, {13, 8}, {17, 10}, {7, 4}, {5, 3}}
+	cfgs := []cfg{{7, 5}, {7, 5}, {9, 6}, {13, 8}, {5, 3}}
 	for i, cf := range cfgs {
 		alg := tpm.Algorithm(tpm2.AlgSHA1)
 		if i%2 == 1 {
@@ -1408,6 +1416,161 @@ func (h *runner) manyWinners() {
 		h.scenario(scenario{kind: "e2e-many-winners", log: t.CommandLog, alg: alg, st: st, gs: []int{cf.g},
 			pert:   perturbation{label: "in", loc: 3, drop: []int{1 + h.pick(cf.n)}, acm: acmChange{kind: "dec", dec: dec}},
 			source: fmt.Sprintf("boot simulation (TPMInit(3), PCR0_DATA) + %d identical appended TPMExtend; one of them dropped and ACM_POLICY_STATUS - %d (MaxACMPolicyLinearDistance %d)", cf.n, dec, 2*dec)})
+	}
+}
+
+// ---- settings beyond the defaults: a combinatorial search that is split among several workers ----
+
+// the 3-bit combinations of the 64 register bits in combination-ID order
+// (lexicographic order of the sorted bit lists)
+var triples [][3]int
+
+func tripleByID(id int) [3]int {
+	if triples == nil {
+		for a := 0; a < 64; a++ {
+			for b := a + 1; b < 64; b++ {
+				for c := b + 1; c < 64; c++ {
+					triples = append(triples, [3]int{a, b, c})
+				}
+			}
+		}
+	}
+	return triples[id]
+}
+
+// MaxACMPolicyCombinatorialDistance = 3: the 41664 three-bit candidates are the
+// first level that bruteforcer.run splits (10000 combinations per worker at
+// least: 2, 3, 4 workers under GOMAXPROCS 2, 3, >= 4).  The requested value has
+// exactly three register bits flipped (out of reach of the linear strategy and
+// of one or two flips), chosen by its position in the combination-ID space:
+// inside a worker's slice, first or last of a slice; or four bits flipped, which
+// makes every worker scan its whole slice while the others do the same.
+func (h *runner) combWorkers(variant int) {
+	rng := h.c.Rng
+	const amount = 41664
+	st := pcrbruteforcer.SettingsReproducePCR0{MaxDisabledMeasurements: 1, MaxReorders: 0}
+	st.EnableACMPolicyCombinatorialStrategy = true
+	st.MaxACMPolicyCombinatorialDistance = 3
+	var alg tpm.Algorithm = tpm2.AlgSHA1
+	var log tpm.CommandLog
+	var src string
+	var id int
+	var gs []int
+	label := "in"
+	switch variant {
+	case 0: // a real boot log; the combination lies inside the last worker's slice
+		t := bootLog(0x0000000200108681, 3, true, [][]byte{{byte(rng.Intn(256)), 7}})
+		log, src = t.CommandLog, "boot simulation on fake_intel_firmware.fd (TPMInit(3), PCR0_DATA, 1 Measure step)"
+		st.MaxACMPolicyLinearDistance = 2
+		id = amount - 1 - rng.Intn(amount/4)
+		gs = []int{2, 4}
+	case 1: // hand-made log, one swap allowed and needed; first combination of a slice
+		alg = tpm2.AlgSHA256
+		tail := make([]byte, 24)
+		rng.Read(tail)
+		log = tpm.CommandLog{{Command: tpm.NewCommandInit(0)}, synthData(alg, h.randReg(), tail, nil),
+			plainEntry(0, alg, h.randDigest(alg)), plainEntry(1, alg, h.randDigest(alg)), plainEntry(0, alg, h.randDigest(alg))}
+		src = "hand-made log (TPMInit(0), PCR0_DATA, 2 further PCR0 measurements)"
+		st.MaxReorders = 1
+		st.MaxACMPolicyLinearDistance = 0
+		id = []int{amount / 4, 2 * (amount / 4), amount / 3, 2 * (amount / 3), amount / 2}[rng.Intn(5)]
+		gs = []int{3, 16}
+	case 2: // four bits flipped: no result, every worker scans all of its slice
+		alg = tpm2.AlgSHA256
+		t := bootLog(h.randReg(), 0, false, nil)
+		log, src = t.CommandLog, "boot simulation on fake_intel_firmware.fd (TPMInit(0), PCR0_DATA)"
+		st.MaxACMPolicyLinearDistance = 3
+		label = "flip>limit"
+		gs = []int{2, 5}
+	default: // last combination of the first worker's slice, or any
+		tail := make([]byte, 40)
+		rng.Read(tail)
+		log = tpm.CommandLog{synthData(alg, h.randReg(), tail, nil), plainEntry(0, alg, h.randDigest(alg))}
+		src = "hand-made log (PCR0_DATA, 1 further PCR0 measurement)"
+		st.MaxACMPolicyLinearDistance = 128
+		id = []int{amount/4 - 1, amount/2 - 1, rng.Intn(amount)}[rng.Intn(3)]
+		gs = []int{2, 64}
+	}
+	r := newRegistry()
+	ents := view(log, alg, r)
+	var bs []int
+	if label == "in" {
+		t := tripleByID(id)
+		bs = t[:]
+		src += fmt.Sprintf("; ACM_POLICY_STATUS with the bits %v flipped = combination ID %d of %d at distance 3", bs, id, amount)
+	} else {
+		bs = rng.Perm(56)[:4]
+		for i := range bs {
+			bs[i] += 8
+		}
+		src += fmt.Sprintf("; ACM_POLICY_STATUS with the 4 bits %v flipped", bs)
+	}
+	// keep the register out of reach of the linear strategy
+	flipped := ents[0].reg
+	for _, b := range bs {
+		flipped ^= 1 << uint(b)
+	}
+	if ents[0].reg-flipped < uint64(st.MaxACMPolicyLinearDistance) {
+		st.MaxACMPolicyLinearDistance = 0
+	}
+	p := perturbation{label: label, loc: []uint8{0, 3}[rng.Intn(2)], acm: acmChange{kind: "flip", bits: bs}}
+	if st.MaxReorders > 0 {
+		p.swaps = [][2]int{{1, 2}}
+	}
+	h.scenario(scenario{kind: "e2e-comb-workers", log: log, alg: alg, st: st, pert: p, gs: gs,
+		source: src + ", MaxACMPolicyCombinatorialDistance=3"})
+}
+
+// Every set of two disjoint swaps of five measurements (interleaved, nested, side
+// by side), and some sets of three swaps of six, with MaxReorders = the number
+// of swaps: the pairs are picked among the not-yet-swapped slots, so the
+// second and third pair exercise the index translation of executeRecursive.
+func (h *runner) multiSwaps() {
+	rng := h.c.Rng
+	mk := func(alg tpm.Algorithm, n int) tpm.CommandLog {
+		t := bootLog(h.randReg(), []uint8{0, 3}[rng.Intn(2)], false, nil)
+		for i := 1; i < n; i++ {
+			if err := t.TPMExtend(ctxBG, 0, alg, h.randDigest(alg), nil); err != nil {
+				panic(err)
+			}
+		}
+		return t.CommandLog
+	}
+	i := 0
+	run := func(alg tpm.Algorithm, log tpm.CommandLog, n int, sw [][2]int) {
+		st := pcrbruteforcer.SettingsReproducePCR0{MaxDisabledMeasurements: 1, MaxReorders: len(sw)}
+		st.MaxACMPolicyLinearDistance = 2
+		p := perturbation{label: "in", loc: []uint8{0, 3}[i%2], acm: acmChange{kind: "dec", dec: uint64(i % 2)}, swaps: sw}
+		h.scenario(scenario{kind: "e2e-multi-swaps", log: log, alg: alg, st: st, pert: p, gs: []int{gomaxprocs[i%len(gomaxprocs)]},
+			source: fmt.Sprintf("boot simulation (PCR0_DATA) + %d appended TPMExtend; swaps %v, MaxReorders=%d", n-1, sw, len(sw))})
+		i++
+	}
+	alg := h.randBank()
+	log := mk(alg, 5)
+	for a := 0; a < 5; a++ {
+		for b := a + 1; b < 5; b++ {
+			for c := a + 1; c < 5; c++ {
+				for d := c + 1; d < 5; d++ {
+					if c != b && d != b {
+						run(alg, log, 5, [][2]int{{a, b}, {c, d}})
+					}
+				}
+			}
+		}
+	}
+	alg = h.randBank()
+	log = mk(alg, 6)
+	for k := 0; k < 4; k++ {
+		q := rng.Perm(6)
+		var sw [][2]int
+		for j := 0; j < 6; j += 2 {
+			a, b := q[j], q[j+1]
+			if a > b {
+				a, b = b, a
+			}
+			sw = append(sw, [2]int{a, b})
+		}
+		run(alg, log, 6, sw)
 	}
 }
 
@@ -1434,7 +1597,7 @@ func main() {
 	rng := c.Rng
 
 	// ---- linear search blocks, every limit x GOMAXPROCS ----
-	limits := []int{-3, 0, 1, 2, 3, 4, 5, 7, 8, 15, 16, 17, 31, 32, 33, 63, 64, 65, 127, 128, 129, 1000}
+	limits := []int{-3, 0, 1, 2, 3, 4, 5, 7, 8, 15, 16, 17, 31, 32, 33, 63, 64, 65, 127, 128, 129, 300}
 	for _, lim := range limits {
 		for _, g := range gomaxprocs {
 			h.linear(lim, g, h.randReg())
@@ -1450,7 +1613,33 @@ func main() {
 		h.linearHit(lim, g, h.randReg(), acc)
 	}
 
+	// ---- combinatorial search: what every worker context is offered, limit x GOMAXPROCS
+	// (distance 3 is the first that is split among workers; 4 only through the oracle) ----
+	for _, g := range []int{1, 2, 3, 4, 5, 16, 64} {
+		for _, lim := range []int{0, 1, 2, 3} {
+			if lim == 3 && (g == 1 || g == 5 || g == 64) {
+				continue
+			}
+			h.comb(lim, g, h.randReg(), true)
+		}
+	}
+	h.comb(4, 16, h.randReg(), false)
+	for i := 0; i < c.Scale(40, 400); i++ {
+		lim := []int{1, 2, 3, 3, 3}[rng.Intn(5)]
+		g := []int{1, 2, 3, 4, 5, 16, 64}[rng.Intn(7)]
+		var masks []uint64
+		for j := 0; j < 1+rng.Intn(2); j++ {
+			var m uint64
+			for _, b := range rng.Perm(64)[:rng.Intn(lim+2)] {
+				m |= 1 << uint(b)
+			}
+			masks = append(masks, m)
+		}
+		h.combHit(lim, g, h.randReg(), masks)
+	}
+
 	// ---- end to end ----
+	h.combWorkers(0)
 	labels := []string{"in", "in", "in", "in", "in", "dec=limit", "dec>limit", "drop=max", "swaps=max+1", "garbage", "locality", "3-cycle", "flip>limit", "drop-all"}
 	nsc := c.Scale(70, 900)
 	for i := 0; i < nsc; i++ {
@@ -1476,6 +1665,7 @@ func main() {
 		label := labels[rng.Intn(len(labels))]
 		h.scenario(scenario{kind: "e2e", log: log, alg: alg, st: st, pert: h.randPert(ents, st, label), source: src})
 	}
+	h.combWorkers(1)
 	// every decrement 0..limit for small limits, both localities, both banks (real boot logs)
 	for _, alg := range []tpm.Algorithm{tpm2.AlgSHA1, tpm2.AlgSHA256} {
 		for _, lim := range []int{1, 3, 4} {
@@ -1579,6 +1769,7 @@ func main() {
 		}
 	}
 
+	h.combWorkers(2)
 	// ---- combinatorial strategy: bit flips at byte/word boundaries, at and beyond the distance limit ----
 	for _, alg := range []tpm.Algorithm{tpm2.AlgSHA1, tpm2.AlgSHA256} {
 		type fl struct {
@@ -1612,12 +1803,14 @@ func main() {
 		}
 	}
 
+	h.multiSwaps()
+	h.combWorkers(3)
 	h.linearLimitWitness()
 	h.manyWinners()
 	h.probes()
 
 	c.Finish("e2e: command logs from boot simulations on fake_intel_firmware.fd (PCR0_DATA + 0..6 further measurements, appended TPMExtend, repeated digests, other-bank/other-PCR noise) and hand-made logs (no PCR0_DATA, PCR0_DATA not first / twice / inconsistent digest, aliasing digests); " +
 		"targets by known perturbations inside the search space (locality 0|3, dropped subset, decrement 0..limit-1 or bit flips, disjoint swaps) and just outside (decrement = limit and above, one more dropped/swapped than allowed, locality 1|2|4, 3-cycle, flips beyond the limit, everything dropped) and random bytes; both banks; random settings; each under GOMAXPROCS " + fmt.Sprint(gomaxprocs) +
-		"; e2e-slice-boundary: the dropped subset is the first/last combination of a goroutine's ID slice (k = 1..3 of 4..7 measurements, GOMAXPROCS 2,3,5,16); e2e-limit-2: MaxACMPolicyLinearDistance=2, register off by 2 and by 1 under GOMAXPROCS 1,2,3,4,5,16,64; e2e-many-winners: PCR0_DATA + 5..17 identical measurements, one dropped, decrement 3000 of 6000 (more succeeding goroutines than GOMAXPROCS+1); linear-hook: per-goroutine offered registers for " + fmt.Sprint(len(limits)) + " limits x GOMAXPROCS. A case is non-trivial when the log has >= 2 PCR0 measurements and the target is not random bytes (linear-hook: limit > 1); distinct = distinct Gallina literal")
+		"; e2e-slice-boundary: the dropped subset is the first/last combination of a goroutine's ID slice (k = 1..3 of 4..7 measurements, GOMAXPROCS 2,3,5,16); e2e-limit-2: MaxACMPolicyLinearDistance=2, register off by 2 and by 1 under GOMAXPROCS 1,2,3,4,5,16,64; e2e-many-winners: PCR0_DATA + 5..13 identical measurements, one dropped, decrement 3000 of 6000 (more succeeding goroutines than GOMAXPROCS+1); e2e-multi-swaps: every set of two disjoint swaps of 5 measurements and four sets of three swaps of 6, MaxReorders = number of swaps; e2e-comb-workers: MaxACMPolicyCombinatorialDistance=3 (41664 three-bit candidates, the first level that is split among 2..4 bruteforcer workers), register with 3 bits flipped chosen by combination ID (inside / first / last of a worker's slice) or 4 bits flipped (every worker scans its whole slice), GOMAXPROCS 2,3,4,5,16,64; linear-hook: per-goroutine offered registers for " + fmt.Sprint(len(limits)) + " limits x GOMAXPROCS; comb-hook: per-context summary of the registers combinatorialSearch.Process offers for distance limits 0..3 x GOMAXPROCS (limit 4 under GOMAXPROCS 16 through the oracle only), comb-hook-hit: accepted bit masks at and beyond the limit; both hooks run with an instrumented init/check that notices a context that is inside check() on two goroutines at once. A case is non-trivial when the log has >= 2 PCR0 measurements and the target is not random bytes (linear-hook: limit > 1, comb-hook: limit > 0); distinct = distinct Gallina literal")
 	_ = strings.Join
 }
